@@ -323,6 +323,64 @@ impl Drop for SharedLockGuard<'_> {
 }
 
 // =============================================================================
+// Update Lock (held across a whole read-modify-write cycle)
+// =============================================================================
+
+/// RAII guard for the update lock of a state file (see [`lock_for_update`]).
+///
+/// The lock is released when the guard is dropped.
+#[derive(Debug)]
+pub struct UpdateLockGuard {
+    file: File,
+}
+
+impl Drop for UpdateLockGuard {
+    fn drop(&mut self) {
+        unlock_file(&self.file);
+    }
+}
+
+/// Acquire the update lock of `path`: an exclusive lock on the side-car file `<path>.lock`.
+///
+/// The lock taken inside [`atomic_write_with_lock`] only spans the rename, so two processes
+/// that both load, modify and save the same file can overwrite each other's update. A caller
+/// that appends to a state file holds this lock from before the load until after the save.
+///
+/// Returns `None` (after printing a warning) if the lock cannot be acquired within the
+/// default lock timeout; the caller must then skip the update.
+#[must_use]
+pub fn lock_for_update(path: &Path, file_description: &str) -> Option<UpdateLockGuard> {
+    let mut lock_name = path.as_os_str().to_os_string();
+    lock_name.push(".lock");
+    let lock_path = PathBuf::from(lock_name);
+
+    let acquired = ensure_parent_dir(&lock_path)
+        .and_then(|()| {
+            OpenOptions::new()
+                .write(true)
+                .create(true)
+                .truncate(false)
+                .open(&lock_path)
+        })
+        .map_err(LockError::Io)
+        .and_then(|file| {
+            try_lock_exclusive_with_timeout(&file, DEFAULT_LOCK_TIMEOUT_MS).map(|()| file)
+        });
+
+    match acquired {
+        Ok(file) => Some(UpdateLockGuard { file }),
+        Err(e) => {
+            crate::output::print_warning_full(
+                &format!("Failed to acquire update lock on {file_description}"),
+                Some(&format!("{}: {e}", lock_path.display())),
+                Some(&format!("{file_description} update skipped")),
+            );
+            None
+        }
+    }
+}
+
+// =============================================================================
 // Atomic File Writing
 // =============================================================================
 
